@@ -137,6 +137,8 @@ class ShardResult:
     class_samples: Dict[str, Any] = field(default_factory=dict)
     violations: List[dict] = field(default_factory=list)
     harness_error: Optional[str] = None
+    oracle_crashes: int = 0  # cases on which the check's own code raised (reported as a harness error unless a violation was found too)
+    first_crash: Optional[str] = None
     space_size: int = 0
     wall_s: float = 0.0
 
@@ -181,10 +183,13 @@ class _Recorder:
         except Exception as e:  # noqa
             origin = exc_origin(e)
             if origin is None:
-                raise HarnessError(
-                    f"{type(e).__name__} outside praatio: {e}\n"
-                    + "".join(traceback.format_exception(type(e), e, e.__traceback__))
-                ) from e
+                # the check's own code raised: never a VIOLATION by itself; the search goes on so that a genuine
+                # violation elsewhere is still found (run_shard turns this into a harness error if none is)
+                res.oracle_crashes += 1
+                if res.first_crash is None:
+                    res.first_crash = (f"{type(e).__name__} outside praatio: {e}\n"
+                                       + "".join(traceback.format_exception(type(e), e, e.__traceback__)))
+                return
             v = Violation(
                 f"exception:{type(e).__name__}@{origin}",
                 f"{type(e).__name__}: {e}",
@@ -241,6 +246,8 @@ def run_shard(mod_name: str, check_name: str, tier: str, seed: int, shard: int, 
             _run_gen(rec, tier, seed, shard, nshards)
         rec.res.accepted_exceptions = dict(_NOTE)
         rec.res.wall_s = time.time() - t0
+        if rec.res.first_crash is not None:
+            rec.res.harness_error = f"error in the check's own code on {rec.res.oracle_crashes} case(s); first one:\n" + rec.res.first_crash
         return rec.res
     except HarnessError as e:
         r = ShardResult(check=check_name)
@@ -553,7 +560,9 @@ def main(argv: List[str]) -> int:
     if herrs:
         for r in herrs:
             print(f"HARNESS-ERROR in {r.check}:\n{r.harness_error}")
-        return 2
+        if not any(r.violations for r in results):
+            return 2
+        # a violation found elsewhere stands on its own: report it (exit 1); the harness errors are printed above
 
     # merge
     per_check: Dict[str, dict] = {}
